@@ -294,31 +294,51 @@ func r012(c *Ctx) {
 // newly allocated visited set.
 func freshVisitedFuncs(p *core.Program) map[*ssa.Function]bool {
 	out := map[*ssa.Function]bool{}
-	for _, fn := range p.KetoFuncs("internal/x/graph") {
-		if fn.Parent() != nil || len(fn.Blocks) != 1 {
-			continue
-		}
-		for _, ins := range fn.Blocks[0].Instrs {
-			ret, ok := ins.(*ssa.Return)
-			if !ok || len(ret.Results) != 1 {
+	// a straight-line function whose first result is context.WithValue(ctx, key, <new set>) - or what
+	// another such function returns (the installation extracted into a helper)
+	for changed := true; changed; {
+		changed = false
+		for _, fn := range p.KetoFuncs("internal/x/graph") {
+			if fn.Parent() != nil || len(fn.Blocks) != 1 || out[fn] {
 				continue
 			}
-			call, ok := ret.Results[0].(*ssa.Call)
-			if !ok {
-				continue
-			}
-			obj := core.CalleeObj(call.Common())
-			if obj == nil || obj.Name() != "WithValue" || obj.Pkg() == nil || obj.Pkg().Path() != "context" {
-				continue
-			}
-			val := core.Unwrap(call.Common().Args[2])
-			if mk, ok := val.(*ssa.Call); ok {
-				if g := mk.Common().StaticCallee(); g != nil && allocatesFresh(g) {
-					out[fn] = true
+			for _, ins := range fn.Blocks[0].Instrs {
+				ret, ok := ins.(*ssa.Return)
+				if !ok || len(ret.Results) < 1 || !core.IsNamed(ret.Results[0].Type(), "context", "Context") {
+					continue
 				}
-			}
-			if _, ok := val.(*ssa.Alloc); ok {
-				out[fn] = true
+				var call *ssa.Call
+				switch v := ret.Results[0].(type) {
+				case *ssa.Call:
+					call = v
+				case *ssa.Extract:
+					if v.Index == 0 {
+						call, _ = v.Tuple.(*ssa.Call)
+					}
+				}
+				if call == nil {
+					continue
+				}
+				if sc := call.Common().StaticCallee(); sc != nil && out[sc] {
+					out[fn] = true
+					changed = true
+					continue
+				}
+				obj := core.CalleeObj(call.Common())
+				if obj == nil || obj.Name() != "WithValue" || obj.Pkg() == nil || obj.Pkg().Path() != "context" {
+					continue
+				}
+				val := core.Unwrap(call.Common().Args[2])
+				if mk, ok := val.(*ssa.Call); ok {
+					if g := mk.Common().StaticCallee(); g != nil && allocatesFresh(g) {
+						out[fn] = true
+						changed = true
+					}
+				}
+				if _, ok := val.(*ssa.Alloc); ok {
+					out[fn] = true
+					changed = true
+				}
 			}
 		}
 	}
